@@ -52,6 +52,11 @@ type duplexHTTPCall struct {
 	// requestBodyDone is non-zero once CloseWrite has ended the request body.
 	// Accessed atomically.
 	requestBodyDone uint32
+
+	// done is closed by CloseRead: the call is over and nobody needs to watch
+	// its context any longer.
+	done     chan struct{}
+	doneOnce sync.Once
 }
 
 func newDuplexHTTPCall(
@@ -77,6 +82,7 @@ func newDuplexHTTPCall(
 		requestBodyWriter: pipeWriter,
 		request:           request,
 		responseReady:     make(chan struct{}),
+		done:              make(chan struct{}),
 	}
 	if err != nil {
 		// We can't construct a request, so we definitely can't send it over the
@@ -167,6 +173,13 @@ func (d *duplexHTTPCall) Read(data []byte) (int, error) {
 	}
 	verifYield(d.ctx, "read.body")
 	n, err := d.response.Body.Read(data)
+	if err != nil && !errors.Is(err, io.EOF) {
+		if ctxErr := d.ctx.Err(); ctxErr != nil {
+			// The context's end is why the stream broke, whatever the transport
+			// calls the failure.
+			err = ctxErr
+		}
+	}
 	// A context that finishes while the read is blocked makes the body fail
 	// with the bare context error: classify it before callers wrap it.
 	return n, wrapIfRSTError(wrapIfContextError(err))
@@ -174,6 +187,7 @@ func (d *duplexHTTPCall) Read(data []byte) (int, error) {
 
 func (d *duplexHTTPCall) CloseRead() error {
 	d.BlockUntilResponseReady()
+	defer d.doneOnce.Do(func() { close(d.done) })
 	if d.response == nil {
 		return nil
 	}
@@ -182,6 +196,10 @@ func (d *duplexHTTPCall) CloseRead() error {
 		// Reading the rest of the body failed, but the body still has to be
 		// closed or the transport never releases the stream.
 		_ = d.response.Body.Close()
+		if ctxErr := d.ctx.Err(); ctxErr != nil {
+			// As in Read: the context's end is why the stream broke.
+			err = ctxErr
+		}
 		return wrapIfRSTError(err)
 	}
 	verifYield(d.ctx, "closeread.close")
@@ -287,6 +305,14 @@ func (d *duplexHTTPCall) makeRequest() {
 		return
 	}
 	d.response = response
+	if d.ctx.Done() != nil {
+		// Once RoundTrip has returned, net/http's HTTP/2 transport leaves
+		// watching the context to the goroutine that copies the request body -
+		// which can't while it's blocked reading our pipe. Make sure that a
+		// finished context ends the call even if the caller neither sends nor
+		// closes the request side again.
+		go d.watchContext()
+	}
 	if err := d.validateResponse(response); err != nil {
 		d.SetError(err)
 		return
@@ -302,6 +328,17 @@ func (d *duplexHTTPCall) makeRequest() {
 			response.ProtoMajor,
 			response.ProtoMinor,
 		))
+	}
+}
+
+func (d *duplexHTTPCall) watchContext() {
+	select {
+	case <-d.ctx.Done():
+		// Closes the read side of the request body (unless CloseWrite already
+		// ended it, in which case net/http is watching the context itself): the
+		// transport resets the stream and blocked reads return.
+		d.SetError(d.ctx.Err())
+	case <-d.done:
 	}
 }
 
